@@ -9,9 +9,7 @@
                   registration order among equals, each asked with its declarative path test, the method
                   must match, allowed methods accumulated in that order);
    build_app    = add_route / add_static / add_subapp (with _add_prefix_to_resources) / add_domain / freeze.
-   `p` is request.rel_url.path_safe: it starts with '/' (origin-form) and yarl's path_safe decoder
-   leaves it unchanged (path_safe_dec p = p: holds for every well-formed target; a malformed escape such
-   as "%2%30" makes yarl return a string that decodes further, see C14_index_eq_rule_refuted).
+   `p` is request.rel_url.path_safe; it starts with '/' (origin-form).
    op_clean: the prefix given to add_subapp contains no '%' and no '{' (it reaches the sub-application's
    resources as typed, so only then is it the same text in the formatter and in the decoded path). *)
 From AV Require Import Lib.Base Lib.Utf8 Generated.DispatchGen Model.Dispatch
@@ -21,35 +19,25 @@ Open Scope N_scope.
 
 (* ---------------------------------------------------------------- handler and match_info = the rule *)
 
-(* PARTIAL in `path_safe_dec p = p` (see C14_index_eq_rule_refuted) and in op_clean (add_subapp prefixes without '%' and '{'; missing: prefixes
+(* PARTIAL only in the hypothesis op_clean (add_subapp prefixes without '%' and '{'; missing: prefixes
    given already percent-encoded, which reach the sub-application's resources undecoded).  Otherwise
    for EVERY operation list that builds (any nesting of sub-apps and domain sub-apps, any registration
    order), every path_safe path, method and Host: the index walk chooses the handler, match_info and
    allowed-method list of the documented rule. *)
 Theorem C14_dispatch_follows_rule_partial : forall ops rt host p m,
   Forall op_clean ops -> build_app ops = BOk rt ->
-  starts_with [SLASH] p = true -> path_safe_dec p = p ->
+  starts_with [SLASH] p = true ->
   resolve_ix rt host p m = resolve_rule rt host p m.
 Proof. exact built_dispatch_follows_rule. Qed.
 Print Assumptions C14_dispatch_follows_rule_partial.
 
-(* The statement for ALL paths is REFUTED on the tree as of 70456c5: a plain resource is compared as
-   written but indexed under the decoded key, so a path that is not a fixed point of path_safe (yarl
-   returns "/a%20b" for the malformed target "/a%2%30b") is matched by the rule and missed by the index
-   (open finding C14-plain-key-decoded; repair proposed in DESIGN-built/C14-repair-C14-plain-key-decoded.diff). *)
-Theorem C14_index_eq_rule_refuted :
-  exists rt, build_app [ORoute s_POST s_a20b 1] = BOk rt /\ path_safe_dec s_a20b <> s_a20b /\
-    resolve_ix rt None s_a20b s_POST = NotFound /\ resolve_rule rt None s_a20b s_POST = Found 1 [].
-Proof. exact index_rule_nonfixpoint_witness. Qed.
-Print Assumptions C14_index_eq_rule_refuted.
-
-(* its two halves: (1) PARTIAL in `path_safe_dec p = p` only (true of every path_safe that yarl derives
-   from a well-formed target): index = rule for every table whose index is consistent ... *)
-Theorem C14_index_eq_rule_partial : forall rt host p m,
-  router_ok rt -> starts_with [SLASH] p = true -> path_safe_dec p = p ->
+(* its two halves: (1) FULL (since b7a1f19): index = rule for every table whose index is consistent,
+   every path starting with '/', every method and Host ... *)
+Theorem C14_index_eq_rule : forall rt host p m,
+  router_ok rt -> starts_with [SLASH] p = true ->
   resolve_ix rt host p m = resolve_rule rt host p m.
 Proof. exact index_eq_rule. Qed.
-Print Assumptions C14_index_eq_rule_partial.
+Print Assumptions C14_index_eq_rule.
 
 (* ... (2) PARTIAL in op_clean as above: construction, including unindex / add_prefix / index of every indexed resource of a mounted
    sub-application (recursively; matched sub-apps are only prefixed), keeps every index consistent:
@@ -82,10 +70,8 @@ Example C14_example_table :
 Proof. exact ex_builds_and_resolves. Qed.
 Print Assumptions C14_example_table.
 
-Example C14_example_hypotheses :
-  Forall op_clean ex_ops /\
-  path_safe_dec [47; 115; 47; 115; 47; 113] = [47; 115; 47; 115; 47; 113].
-Proof. exact (conj ex_ops_ex_clean ex_path_is_path_safe). Qed.
+Example C14_example_hypotheses : Forall op_clean ex_ops.
+Proof. exact ex_ops_ex_clean. Qed.
 Print Assumptions C14_example_hypotheses.
 
 (* ---------------------------------------------------------------- 404 / 405 *)
@@ -93,23 +79,22 @@ Print Assumptions C14_example_hypotheses.
 (* Since 2ef822d, through any nesting of sub-applications: a 404 is returned only if no resource
    matches the path — i.e. it does not depend on the method — and a 405 lists exactly the methods for
    which the same path is served.  FULL for every consistent well-formed table
-   (C14_404_405_sweep_tables_partial below); for operation lists PARTIAL in op_clean only. *)
+   (C14_404_405_sweep_tables below); for operation lists PARTIAL in op_clean only. *)
 Theorem C14_404_405_sweep_partial : forall ops rt host p,
   Forall op_clean ops -> build_app ops = BOk rt ->
-  starts_with [SLASH] p = true -> path_safe_dec p = p ->
+  starts_with [SLASH] p = true ->
   (forall m, resolve_ix rt host p m = NotFound -> forall m', resolve_ix rt host p m' = NotFound) /\
   (forall m A, resolve_ix rt host p m = NotAllowed A ->
      forall m', (exists h mi, resolve_ix rt host p m' = Found h mi) <-> In m' A).
 Proof. exact built_sweep. Qed.
 Print Assumptions C14_404_405_sweep_partial.
 
-(* every consistent, well-formed table (every leaf has a route, static resources list no wildcard); PARTIAL in
-   `path_safe_dec p = p` only *)
-Theorem C14_404_405_sweep_tables_partial : forall rt host p,
-  router_ok rt -> wf_router rt -> starts_with [SLASH] p = true -> path_safe_dec p = p ->
+(* FULL: every consistent, well-formed table (every leaf has a route, static resources list no wildcard) *)
+Theorem C14_404_405_sweep_tables : forall rt host p,
+  router_ok rt -> wf_router rt -> starts_with [SLASH] p = true ->
   sweep_ok (fun m => resolve_ix rt host p m).
 Proof. exact ix_sweep. Qed.
-Print Assumptions C14_404_405_sweep_tables_partial.
+Print Assumptions C14_404_405_sweep_tables.
 
 Theorem C14_built_tables_well_formed : forall ops rt, build_app ops = BOk rt -> wf_router rt.
 Proof. exact build_app_wf. Qed.
@@ -129,6 +114,14 @@ Example C14_example_static_before_subapp :
     resolve_ix rt None s_sy s_GET = Found 1 [(FILENAME, [121])].
 Proof. exact static_before_subapp_example. Qed.
 Print Assumptions C14_example_static_before_subapp.
+
+(* a plain resource is compared and indexed as written (b7a1f19): found also for a path that is not a fixed
+   point of path_safe (former refutation witness of index = rule) *)
+Example C14_example_plain_key_as_written :
+  exists rt, build_app [ORoute s_POST s_a20b 1] = BOk rt /\ path_safe_dec s_a20b <> s_a20b /\
+    resolve_ix rt None s_a20b s_POST = Found 1 [] /\ resolve_ix rt None s_a20b s_GET = NotAllowed [s_POST].
+Proof. exact plain_key_as_written_example. Qed.
+Print Assumptions C14_example_plain_key_as_written.
 
 (* an application that has an add_domain sub-application can be mounted under a prefix (94230c1) *)
 Example C14_example_nested_domain :
